@@ -59,6 +59,8 @@ int main(int argc, char** argv) {
     else if (hc_is(0, "mem")) { char* a = arg(2); volatile long long r = 0; HC_TRY(r = mem(s, $S(a)) ? 1 : 0); emit("mem", o, 0, 0, a, hc_exc, r); }
     else if (hc_is(0, "resize")) { long long n = hc_int(2); HC_TRY(resize(s, (size_t)n)); emit("resize", o, 0, n, "", hc_exc, 0); }
     else if (hc_is(0, "printat")) { long long pos = hc_int(2); char* a = arg(3); volatile long long r = 0; HC_TRY(r = print_to(s, (int)pos, "%s", $S(a))); emit("printat", o, 0, pos, a, hc_exc, r); }
+    /* a formatted write whose format has literal text, two conversions and a %% between them */
+    else if (hc_is(0, "printpct")) { long long pos = hc_int(2); char* a = arg(3); volatile long long r = 0; HC_TRY(r = print_to(s, (int)pos, "%s%%%s|", $S(a), $S(a))); emit("printpct", o, 0, pos, a, hc_exc, r); }
     else if (hc_is(0, "assigno")) { int p = (int)hc_int(2); HC_TRY(assign(s, objs_[p])); emit("assigno", o, p, 0, "", hc_exc, 0); }
     else if (hc_is(0, "concato")) { int p = (int)hc_int(2); HC_TRY(concat(s, objs_[p])); emit("concato", o, p, 0, "", hc_exc, 0); }
     /* the argument is another String object - possibly the target itself (remo / memo / appendo with p == o) */
